@@ -11,6 +11,8 @@ from .enums import EnumIndex
 VERIF = os.path.dirname(os.path.dirname(os.path.abspath(__file__)))
 REPO = os.environ.get('VERIF_REPO', '/repo')
 BUILD = os.path.join(VERIF, 'build')
+# checks always rebuild from REPO's working tree; a scratch tree (VERIF_REPO=/tmp/wt-x) gets its own build directories
+SUFFIX = '' if REPO == '/repo' else '-' + hashlib.sha256(REPO.encode()).hexdigest()[:8]
 NIGHTLY = os.environ.get('VERIF_NIGHTLY', 'nightly')
 
 CRATES = {
@@ -65,7 +67,7 @@ def build_mir(crate, log=print):
         if os.path.exists(out) and os.path.getsize(out) > 1000:
             return out, key, 0.0, True
         t = time.time()
-        tdir = os.path.join(BUILD, 'mir', 'target')
+        tdir = os.path.join(BUILD, 'mir', 'target' + SUFFIX)
         # force rustc to run again for this crate (an up-to-date crate prints nothing)
         sh(f'rm -rf {tdir}/debug/.fingerprint/{c["pkg"]}-*')
         feat = f'--features {c["features"]}' if c['features'] else ''
@@ -100,12 +102,17 @@ class Native:
 
     def build(self):
         t = time.time()
-        tdir = os.path.join(BUILD, 'replay')
+        tdir = os.path.join(BUILD, 'replay' + SUFFIX)
         rel = '--release' if self.profile == 'release' else ''
-        lock = open(os.path.join(BUILD, f'.lock-replay-{self.profile}'), 'w')
+        os.makedirs(BUILD, exist_ok=True)
+        lock = open(os.path.join(BUILD, f'.lock-replay-{self.profile}{SUFFIX}'), 'w')
         fcntl.flock(lock, fcntl.LOCK_EX)
         try:
-            r = sh(f'cd {VERIF}/replay && cp {REPO}/Cargo.lock Cargo.lock && CARGO_NET_OFFLINE=true CARGO_TARGET_DIR={tdir} cargo build --offline {rel}')
+            src = f'{VERIF}/replay'
+            if SUFFIX:
+                src = os.path.join(BUILD, 'replay-src' + SUFFIX)
+                sh(f'rm -rf {src} && mkdir -p {src}/src && cp {VERIF}/replay/src/main.rs {src}/src/ && sed "s#/repo/#{REPO}/#g" {VERIF}/replay/Cargo.toml > {src}/Cargo.toml')
+            r = sh(f'cd {src} && cp {REPO}/Cargo.lock Cargo.lock && CARGO_NET_OFFLINE=true CARGO_TARGET_DIR={tdir} cargo build --offline {rel}')
         finally:
             fcntl.flock(lock, fcntl.LOCK_UN)
         if r.returncode != 0:
@@ -233,6 +240,7 @@ class Ctx:
         self.known_findings = json.load(open(os.path.join(VERIF, 'known_findings.json')))['findings'] \
             if os.path.exists(os.path.join(VERIF, 'known_findings.json')) else []
         self.extra = {}
+        self.panic_only = False
 
     def log(self, *a):
         print(*a, flush=True)
@@ -268,9 +276,22 @@ class Ctx:
                 self.use(f)
 
     # ---------------------------------------------------------- obligations
+    def panic_summary(self, name, outs, ex, pre=()):
+        """C20 obligation of a kernel / code fragment: no panicking path (MIR assert, unwrap/expect on the empty case,
+        unreachable!, explicit panic) is feasible under the stated precondition, and the non-panicking paths cover it"""
+        bad = [o for o in outs if o.kind in ('panic', 'unreachable', 'diverged')]
+        good = [o for o in outs if o.kind not in ('panic', 'unreachable', 'diverged')]
+        f = z3.Or([z3.And(o.pc) if o.pc else z3.BoolVal(True) for o in bad]) if bad else z3.BoolVal(False)
+        self.decide(f'{name}/panic-free ({len(bad)} panic sites on {len(outs)} paths)', list(pre) + [f], kind='panic', ex=ex,
+                    sample={'panic_sites': [o.msg[:120] for o in bad][:4], 'paths': len(outs)})
+        self.extra.setdefault('panic_sites_examined', 0)
+        self.extra['panic_sites_examined'] += len(bad)
+
     def decide(self, name, formulas, expect='unsat', kind='post', sample=None, on_sat=None, ex=None):
         """one solver query.  expect='unsat': an obligation (sat = counterexample candidate, handed to on_sat(model)).
         expect='sat': a reachability / vacuity witness."""
+        if self.panic_only and not (kind in ('panic', 'cover') or 'cover' in name):
+            return None
         fs = list(formulas)
         if ex is not None:
             fs = list(ex.invariants) + fs
@@ -471,6 +492,7 @@ def run_kernel(ctx, K):
         else:
             raise NotEncoded(f'{K.name}: outcome {o.kind}')
     ctx.log(f'  [{K.name}] {len(outs)} paths in {time.time() - t:.2f}s: ' + ', '.join(sorted({d[1] for d in decoded})))
+    ctx.panic_summary(K.name, outs, ex, pre)
 
     def replay(model, tagged):
         conc = {n: model_val(model, ins_t[n]) for n, _ in K.inputs}
@@ -502,7 +524,7 @@ def run_kernel(ctx, K):
         conds = [z3.And(o.pc) if o.pc else z3.BoolVal(True) for o, tg, *_ in decoded if tg == tag]
         ctx.decide(f'{K.name}/witness:{tag}', pre + [z3.Or(conds) if conds else z3.BoolVal(False)], expect='sat', ex=ex)
     # 4. translator validation: the encoding evaluated on concrete inputs must equal the real code
-    if K.native is not None:
+    if K.native is not None and not ctx.panic_only:
         names = [n for n, _ in K.inputs]
         tys = [ty for _, ty in K.inputs]
         samples = [dict(zip(names, smp)) if not isinstance(smp, dict) else smp for smp in (list(K.samples) + (K.samples_fn() if getattr(K, 'samples_fn', None) else []))]
